@@ -220,7 +220,7 @@ def equivalent(logic, decls, a, b):
     if sx_str(sc.strip_named(a)) == sx_str(sc.strip_named(b)):
         return True
     def go():
-        ans, _ = sc.ref_answer("z3", lg(logic), decls, [["distinct", sc.strip_named(a), sc.strip_named(b)]])
+        ans, _ = sc.ref_answer("z3", lg(logic), decls, [["distinct", sc.strip_named(a), sc.strip_named(b)]], timeout=30)
         return True if ans == "unsat" else False if ans == "sat" else None
     return _memo(("eq", logic, tuple(decls), sx_str(sc.strip_named(a)), sx_str(sc.strip_named(b))), go)
 
@@ -286,7 +286,7 @@ def all_equivalent(logic, decls, pairs):
         return True
     def go():
         f = ["or"] + [["distinct", a, b] for a, b in pairs] if len(pairs) > 1 else ["distinct", pairs[0][0], pairs[0][1]]
-        ans, _ = sc.ref_answer("z3", lg(logic), decls, [f])
+        ans, _ = sc.ref_answer("z3", lg(logic), decls, [f], timeout=30)
         return ans == "unsat"
     return _memo(("eqs", logic, tuple(decls), sx_str([list(p) for p in pairs])), go)
 
@@ -415,12 +415,18 @@ class CoreBlock:
 def parse_core_trace(trace_text):
     """list of CoreBlock, one per UnsatCoreBuilder::buildBody (hook proposed_hooks/C06_core_trace.diff)"""
     blocks, cur = [], None
+    pending_orig = []         # (core-orig ..) lines are emitted by mapClausesToTerms, before the (core-begin ..) of their block
     for line in trace_text.split("\n"):
         if not line.startswith("(core-"):
+            continue
+        if line.startswith("(core-orig"):
+            m = re.match(r"^\(core-orig ([0-9]+) ([0-9]+)\)$", line)
+            pending_orig.append((int(m.group(1)), int(m.group(2))))
             continue
         if line.startswith("(core-begin"):
             m = re.match(r"^\(core-begin ([01]) ([01])\)$", line)
             cur = CoreBlock()
+            cur.orig, pending_orig = pending_orig, []
             cur.full, cur.minimal = m.group(1) == "1", m.group(2) == "1"
             blocks.append(cur)
         elif cur is None:
@@ -436,9 +442,6 @@ def parse_core_trace(trace_text):
             ix = m.group(2)
             ix = [int(x) for x in ix.strip("()").split()] if ix.startswith("(") else [int(ix)]
             cur.parts.append((int(m.group(1)), ix, m.group(3)))
-        elif line.startswith("(core-orig"):
-            m = re.match(r"^\(core-orig ([0-9]+) ([0-9]+)\)$", line)
-            cur.orig.append((int(m.group(1)), int(m.group(2))))
         elif line.startswith("(core-current"):
             m = re.match(r"^\(core-current \(([0-9 ]*)\)\)$", line)
             cur.current = [int(x) for x in m.group(1).split()]
